@@ -259,5 +259,7 @@ pub fn run_case(args: &[&str]) -> String {
     }
     // every handle ever returned still reports the same range (handles are owned clones)
     let held: Vec<String> = regs.iter().map(|r| r.as_ref().map(show_elem).unwrap_or_else(|| "-".into())).collect();
-    format!("{} ;; {} ;; {}", outs.join(" ; "), held.join(" "), dump_ranges(&root))
+    // (debug builds assert the cached offset on every hit: a wrong cached offset panics here)
+    let dump = catch(|| dump_ranges(&root)).unwrap_or_else(|c| format!("DUMP-PANIC:{c}"));
+    format!("{} ;; {} ;; {}", outs.join(" ; "), held.join(" "), dump)
 }
